@@ -232,7 +232,7 @@ func (m *monC14) AfterTx(w *World, tx *TxCtx) {
 	d := m.preSheet.delta(post)
 	exp := map[string]*big.Int{}
 	add := func(a, den string, v *big.Int) {
-		k := a + "/" + den
+		k := a + "|" + den
 		if exp[k] == nil {
 			exp[k] = new(big.Int)
 		}
